@@ -222,13 +222,14 @@ func newDocWorld(v dVariant, seed int64) *docWorld {
 	// while, were looked up, and the one in front went away again (the others moved up)
 	must(w.schema.AddType(jsonapi.Type{Name: "aa0"}))
 	defer func() {
-		must(w.schema.AddType(jsonapi.Type{Name: "zz9"}))
 		catch(func() {
 			for _, n := range []string{"aa0", "t1", "t2", "zz9"} {
 				_, _ = w.schema.HasType(n), w.schema.GetType(n)
 			}
 		})
+		// (one type leaves and another one comes: as many types as before, every one in another place)
 		w.schema.RemoveType("aa0")
+		must(w.schema.AddType(jsonapi.Type{Name: "zz9"}))
 	}()
 	for _, name := range []string{"t1", "t2"} {
 		if v.Impl == "wrap" {
